@@ -215,6 +215,9 @@ pub mod sync {
     pub mod mpsc {
         use crate::verif;
         pub use real::sync::mpsc::error;
+        // the rest of the module as it is (no scheduling points of their own): code under test
+        // that starts to use them still builds, its channel operations are then not explored
+        pub use real::sync::mpsc::{unbounded_channel, UnboundedReceiver, UnboundedSender};
         use real::sync::mpsc as rm;
 
         pub struct Sender<T>(rm::Sender<T>);
@@ -271,6 +274,14 @@ pub mod sync {
             pub fn blocking_send(&self, value: T) -> Result<(), error::SendError<T>> {
                 self.0.blocking_send(value)
             }
+            pub fn same_channel(&self, other: &Self) -> bool {
+                self.0.same_channel(&other.0)
+            }
+            pub async fn send_timeout(&self, value: T, timeout: std::time::Duration) -> Result<(), error::SendTimeoutError<T>> {
+                verif::count_chan_op();
+                verif::vyield().await;
+                self.0.send_timeout(value, timeout).await
+            }
         }
 
         impl<T> Receiver<T> {
@@ -288,6 +299,29 @@ pub mod sync {
             }
             pub fn blocking_recv(&mut self) -> Option<T> {
                 self.0.blocking_recv()
+            }
+            pub fn is_empty(&self) -> bool {
+                self.0.is_empty()
+            }
+            pub fn len(&self) -> usize {
+                self.0.len()
+            }
+            pub fn is_closed(&self) -> bool {
+                self.0.is_closed()
+            }
+            pub fn capacity(&self) -> usize {
+                self.0.capacity()
+            }
+            pub fn max_capacity(&self) -> usize {
+                self.0.max_capacity()
+            }
+            pub async fn recv_many(&mut self, buffer: &mut Vec<T>, limit: usize) -> usize {
+                verif::count_chan_op();
+                verif::vyield().await;
+                self.0.recv_many(buffer, limit).await
+            }
+            pub fn poll_recv(&mut self, cx: &mut std::task::Context<'_>) -> std::task::Poll<Option<T>> {
+                self.0.poll_recv(cx)
             }
         }
     }
@@ -332,6 +366,21 @@ pub mod sync {
             }
             pub fn is_closed(&self) -> bool {
                 self.0.is_closed()
+            }
+            pub async fn closed(&mut self) {
+                self.0.closed().await
+            }
+        }
+
+        impl<T> Receiver<T> {
+            pub fn try_recv(&mut self) -> Result<T, error::TryRecvError> {
+                self.inner.try_recv()
+            }
+            pub fn close(&mut self) {
+                self.inner.close()
+            }
+            pub fn blocking_recv(self) -> Result<T, error::RecvError> {
+                self.inner.blocking_recv()
             }
         }
 
